@@ -22,6 +22,9 @@ NetK4 == [n |-> 4, np |-> 4,
 \* two switches, one cable and one extra one-way wire
 NetOne == [n |-> 2, np |-> 3, wires |-> Both({<<1, 1, 2, 1>>}) \cup {<<1, 2, 2, 2>>}]
 MCNetsOne  == {NetOne}
+\* chain of three switches
+NetChain == [n |-> 3, np |-> 3, wires |-> Both({<<1, 1, 2, 1>>, <<2, 2, 3, 1>>})]
+MCNetsChain == {NetChain}
 MCNetsPar  == {NetPar}
 MCNetsTri  == {NetTri}
 MCNetsLoop == {NetLoop}
@@ -41,7 +44,7 @@ InitConverged ==
   /\ phys \in SUBSET net.wires
   /\ conn = Switches
   /\ adj = phys
-  /\ nf \in {X \in SUBSET Ends(phys) : FloodReason(phys, Switches, X) = "ok"}
+  /\ nf \in {X \in SUBSET Ends(phys) : FloodReason(phys, Switches, X, {}) = "ok"}
   /\ age = [l \in net.wires |-> Cap]
   /\ quiet = Cap
   /\ last = NoObs
